@@ -152,7 +152,12 @@ func (m *ippMsg) setPrintJobResponse(b *ippMsg) {
 	for _, g := range b.attributes {
 		if g.tag == opAttribTag {
 			for _, val := range g.val {
-				v, _ := val.(*valStr)
+				v, ok := val.(*valStr)
+				if !ok {
+					// an integer, boolean ... attribute: not one of the names looked for
+					continue
+				}
+
 				if v.name == "printer-uri" {
 					m.uri = v.val[0]
 				} else if v.name == "requesting-user-name" {
